@@ -7493,3 +7493,86 @@ func overrideOutlivesCallout(c *Ctx) {
 	}
 	c.Floor("natives running a callback under a signers override", n, 1)
 }
+
+// ruleKeyBoundAgreement (C10): the trie is one map, so all of its operations accept the same keys and values. The
+// writer (Trie.Put) fixes what is accepted: a key of up to MaxKeyLength bytes, a value of up to MaxValueLength. Every
+// other comparison of a length with one of the two constants in the package - Get, Delete, GetProof, Find, the node
+// decoders - must draw the line at the same place as the writer: a reader that refuses a length the writer accepted
+// makes stored content unreachable (no proof for a key of exactly MaxKeyLength bytes), one that accepts more reads what
+// cannot have been written. The comparison is normalised to `length OP limit`; the operator of Put is the reference.
+func ruleKeyBoundAgreement(c *Ctx) {
+	type cmp struct {
+		fn  string
+		op  token.Token
+		pos token.Pos
+	}
+	flip := map[token.Token]token.Token{token.LSS: token.GTR, token.GTR: token.LSS, token.LEQ: token.GEQ, token.GEQ: token.LEQ, token.EQL: token.EQL, token.NEQ: token.NEQ}
+	for _, limit := range []string{"MaxKeyLength", "MaxValueLength"} {
+		var all []cmp
+		for _, fd := range c.P.AllFuncDecls() {
+			if pkgRel(fd.Pkg.Types) != "pkg/core/mpt" || fd.Decl.Body == nil {
+				continue
+			}
+			info := fd.Pkg.TypesInfo
+			mentions := func(e ast.Expr) bool {
+				hit := false
+				ast.Inspect(e, func(x ast.Node) bool {
+					if id, ok := x.(*ast.Ident); ok {
+						if o, ok := info.ObjectOf(id).(*types.Const); ok && o.Name() == limit && o.Pkg() != nil && pkgRel(o.Pkg()) == "pkg/core/mpt" {
+							hit = true
+						}
+					}
+					return true
+				})
+				return hit
+			}
+			ast.Inspect(fd.Decl.Body, func(x ast.Node) bool {
+				be, ok := x.(*ast.BinaryExpr)
+				if !ok {
+					return true
+				}
+				if _, rel := flip[be.Op]; !rel {
+					return true
+				}
+				l, r := mentions(be.X), mentions(be.Y)
+				if l == r {
+					return true
+				}
+				op := be.Op
+				if l {
+					op = flip[op]
+				}
+				all = append(all, cmp{FuncKey(fd.Obj), op, be.Pos()})
+				return true
+			})
+		}
+		ref := token.ILLEGAL
+		for _, x := range all {
+			if x.fn == "pkg/core/mpt.(*Trie).Put" {
+				ref = x.op
+			}
+		}
+		if ref == token.ILLEGAL {
+			c.Lost("key-bound-agreement."+limit+".writer", "Trie.Put no longer compares a length with mpt."+limit)
+			continue
+		}
+		n := map[string]int{}
+		for _, x := range all {
+			if x.fn == "pkg/core/mpt.(*Trie).Put" {
+				continue
+			}
+			n[x.fn]++
+			key := fmt.Sprintf("%s:%s#%d", limit, shortSym(x.fn), n[x.fn])
+			if x.op == ref {
+				c.OK(key, c.P.Pos(x.pos), fmt.Sprintf("%s draws the line at `length %s %s`, as Trie.Put does", shortSym(x.fn), x.op, limit))
+			} else {
+				c.Fail(key, c.P.Pos(x.pos), fmt.Sprintf("%s compares a length with mpt.%s as `length %s %s`, Trie.Put (the writer) as `length %s %s`: the operations of one map disagree on what a legal key/value is - what Put stored at exactly the limit cannot be read, proved or deleted through this one (or it accepts what cannot have been stored)", shortSym(x.fn), limit, x.op, limit, ref, limit))
+			}
+		}
+		floor := 4
+		if limit == "MaxValueLength" {
+			floor = 2
+		}
+		c.Floor("comparisons with mpt."+limit+" outside Trie.Put", len(all)-1, floor)
+	}
+}
